@@ -39,6 +39,8 @@ LEVEL_TEXT = ("Generated-input search against direct computation on reference bi
               "generated case, never the absence of violations.")
 
 SENT = -9999.0
+# squares of deviations below ~1e-154 underflow in float64 (numpy's own std returns 0 there): absolute floor
+ABS_FLOOR = 1e-150
 NICE_STEPS = [0.25, 0.5, 1.0, 2.0, 3.0, 0.1, 1.0 / 3.0]
 GRID_BASES = [0.0, -3.0, 0.5, 10.1, -7.3, 100.0]
 
@@ -226,7 +228,7 @@ def _wdirect(v, w):
 
 
 def _near(got, exp, scale):
-    return abs(float(got) - float(exp)) <= 1e-12 * scale + 1e-300
+    return abs(float(got) - float(exp)) <= 1e-12 * scale + ABS_FLOOR
 
 
 def _check_stats(b, pref, v, w, members, ctx, what):
